@@ -15,13 +15,11 @@ def shape_fn(name, builder, file=GLB, nth=1, extra=""):
     body = shape_clauses(file, builder, res="__R", nth=nth)[0][2].replace("__R.fields()", "f")
     return "pub open spec fn %s(f: Seq<(Seq<char>, MV)>) -> bool { %s%s }\n" % (name, body, extra)
 A(Raw(
-    shape_fn("share_control_fields", "share_control_header") +
     shape_fn("share_data_fields", "share_data_header") +
     shape_fn("demand_active_fields", "ts_demand_active_pdu", extra=" && cap_sets_ok(f[6].1->Arr_0)") +
     shape_fn("control_fields", "ts_control_pdu") +
     shape_fn("error_info_fields", "ts_set_error_info_pdu") +
-    shape_fn("fp_update_fields", "ts_fp_update") +
-    shape_fn("bitmap_data_fields", "ts_bitmap_data", extra=" && f[7].1->Dyn_0 is U16") +
+    shape_fn("bitmap_data_fields", "ts_bitmap_data", extra=" && (*f[7].1->Dyn_0) is U16") +
     shape_fn("fp_bitmap_fields", "ts_fp_update_bitmap", extra=" && rects_ok(f[2].1->Arr_0)") +
     shape_fn("capability_set_fields", "capability_set", file=CAP, nth=2) + r"""
 /// every element is a component with the TS_CAPS_SET layout / the TS_BITMAP_DATA layout
@@ -62,7 +60,6 @@ impl vstd::std_specs::cmp::PartialEqSpecImpl for PDUType2 {
     open spec fn eq_spec(&self, other: &Self) -> bool { *self == *other }
 }
 """, mod="global", name="derived_eq", trusted="#[derive(PartialEq)] of the field-less enums PDUType / PDUType2 compares the variants (std semantics of the derive)"))
-SS2 = "proof { reveal_with_fuel(same_shape, 2); }"
 
 # ---- parsers (C06: total on any bytes; unknown kinds are errors)
 G("from_stream", impl=r"impl PDU", props=["C06"], keys=True,
@@ -117,13 +114,16 @@ G("read_font_map_pdu", impl=r"impl Client", props=["C06", "C12"], keys=True, ens
 G("read_data_pdu", impl=r"impl Client", props=["C06", "C12"], keys=True,
   body_sub=[(r"for pdu in message\.inner\(\) \{", "let __items = message.inner(); let mut __i: usize = 0; while __i < __items.len() { let pdu = &__items[__i]; __i += 1;")],
   closures={1: dict(params="", ret="-> (c: Component)", spec="ensures c.mv() == share_control_view(0x11, 0, Seq::empty())")},
-  pre=SS2,
   loops={1: """invariant __i <= __items.len(),
             forall|k: int| 0 <= k < __items@.len() ==> same_shape(share_control_view(0x11, 0, Seq::empty()), (#[trigger] __items@[k]).fview()),
             self.same_config(old(self)) && self.share() == old(self).share(),
             self.st() is DemandActivePDU || self.st() == old(self).st(),
         decreases __items.len() - __i"""},
-  hints=[(r"let __items = message\.inner\(\);", 1, "proof { assert(message.mv() is Arr); assert forall|k: int| 0 <= k < __items@.len() implies same_shape(share_control_view(0x11, 0, Seq::empty()), (#[trigger] __items@[k]).fview()) by { assert(message.mv()->Arr_0[k] == __items@[k].fview()); } }", "atend")],
+  # rule R2 drops `println!(.., cast!(DataType::U32, data_pdu.message["errorInfo"])?)` with its argument: the dropped index / cast are checked here instead
+  claims=[(r"match data_pdu\.pdu_type \{", 1, """proof { lemma_keys(); let f = data_pdu.message.fields();
+                        assert(data_pdu.pdu_type is Pdutype2SetErrorInfoPdu ==> has_key(f, "errorInfo"@) && fld(f, "errorInfo"@) is U32); }""", "before", "C06", "dropped-diagnostic-index-safe")],
+  hints=[(r"let __items = message\.inner\(\);", 1, "proof { assert(message.mv() is Arr); assert forall|k: int| 0 <= k < __items@.len() implies same_shape(share_control_view(0x11, 0, Seq::empty()), (#[trigger] __items@[k]).fview()) by { assert(message.mv()->Arr_0[k] == __items@[k].fview()); } }", "atend"),
+         (r"__i \+= 1;", 1, "proof { lemma_keys(); lemma_read_keeps_layout(share_control_view(0x11, 0, Seq::empty()), pdu.fview()); }", "atend")],
   ensures=[("C12", "only-deactivate-resets", "final(self).st() is Data || final(self).st() is DemandActivePDU || final(self).st() == old(self).st()"),
            (None, "config", "final(self).same_config(old(self)) && final(self).share() == old(self).share()")])
 A(Raw(r"""
@@ -137,16 +137,83 @@ impl EventSink {
         ensures final(self).calls() == old(self).calls().push(e)
     { unimplemented!() }
 }
-pub open spec fn appended_only(a: Seq<RdpEvent>, b: Seq<RdpEvent>) -> bool { a.len() <= b.len() && forall|k: int| 0 <= k < a.len() ==> #[trigger] b[k] == a[k] }
-/// the event the application must receive for one TS_BITMAP_DATA rectangle (MS-RDPBCGR 2.2.9.1.1.3.1.2.2): fields verbatim,
-/// compression flag = bit 0 of `flags`, data = bitmapDataStream
-pub open spec fn u16f(f: Seq<(Seq<char>, MV)>, i: int) -> u16 { f[i].1->U16_0 }
 """, mod="global", name="event_sink", trusted="EventSink: the application callback is modelled as a recorder (rule R9)"))
+A(Raw(r"""
+pub open spec fn appended_only(a: Seq<RdpEvent>, b: Seq<RdpEvent>) -> bool { a.len() <= b.len() && forall|k: int| 0 <= k < a.len() ==> #[trigger] b[k] == a[k] }
+/// the field called `k` (what `component[k]` returns)
+pub open spec fn fld(f: Seq<(Seq<char>, MV)>, k: Seq<char>) -> MV { f[first_key(f, k)].1 }
+/// what `cast!(DataType::U16, field)` / `cast!(DataType::Slice, field)` deliver: the value under the Check / DynOption / Option wrappers
+pub open spec fn u16_under(m: MV) -> Option<u16>
+    decreases m
+{
+    match m { MV::U16(v, _) => Some(v), MV::Check(b) => u16_under(*b), MV::Dyn(b, _) => u16_under(*b), MV::Opt(Some(b)) => u16_under(*b), _ => None }
+}
+pub open spec fn bytes_under(m: MV) -> Option<Seq<u8>>
+    decreases m
+{
+    match m { MV::Bytes(v) => Some(v), MV::Check(b) => bytes_under(*b), MV::Dyn(b, _) => bytes_under(*b), MV::Opt(Some(b)) => bytes_under(*b), _ => None }
+}
+/// C10: the event the application must receive for one TS_BITMAP_DATA rectangle `f` (MS-RDPBCGR 2.2.9.1.1.3.1.2.2): the seven u16 fields
+/// verbatim, compression flag = bit 0 of `flags` (BITMAP_COMPRESSION 0x0001), data = bitmapDataStream
+pub open spec fn is_event_of(e: RdpEvent, f: Seq<(Seq<char>, MV)>) -> bool {
+    e matches RdpEvent::Bitmap(b)
+    && Some(b.dest_left) == u16_under(fld(f, "destLeft"@)) && Some(b.dest_top) == u16_under(fld(f, "destTop"@))
+    && Some(b.dest_right) == u16_under(fld(f, "destRight"@)) && Some(b.dest_bottom) == u16_under(fld(f, "destBottom"@))
+    && Some(b.width) == u16_under(fld(f, "width"@)) && Some(b.height) == u16_under(fld(f, "height"@)) && Some(b.bpp) == u16_under(fld(f, "bitsPerPixel"@))
+    && (exists|flags: u16| Some(flags) == u16_under(fld(f, "flags"@)) && b.is_compress == ((flags & 1u16) != 0u16))
+    && Some(b.data@) == bytes_under(fld(f, "bitmapDataStream"@))
+}
+pub proof fn lemma_visit_u16(d: DataType, m: MV)
+    requires dt_matches(d, m), d is U16
+    ensures u16_under(m) == Some(d->U16_0)
+    decreases m
+{
+    match m { MV::Check(b) => lemma_visit_u16(d, *b), MV::Dyn(b, _) => lemma_visit_u16(d, *b), MV::Opt(Some(b)) => lemma_visit_u16(d, *b), _ => {} }
+}
+pub proof fn lemma_visit_slice(d: DataType, m: MV)
+    requires dt_matches(d, m), d is Slice
+    ensures bytes_under(m) == Some(d->Slice_0@)
+    decreases m
+{
+    match m { MV::Check(b) => lemma_visit_slice(d, *b), MV::Dyn(b, _) => lemma_visit_slice(d, *b), MV::Opt(Some(b)) => lemma_visit_slice(d, *b), _ => {} }
+}
+""", mod="global", name="event_specs"))
 R9_SIG = [(r"<T>\(", "("), (r"mut callback: T", "callback: &mut EventSink"), (r"\s*where T: FnMut\(RdpEvent\)\s*", " ")]
+VISIT = """proof {
+    assert forall|d: DataType, m: MV| #[trigger] dt_matches(d, m) && d is U16 implies u16_under(m) == Some(d->U16_0) by { lemma_visit_u16(d, m); }
+    assert forall|d: DataType, m: MV| #[trigger] dt_matches(d, m) && d is Slice implies bytes_under(m) == Some(d->Slice_0@) by { lemma_visit_slice(d, m); }
+}"""
 G("read_fast_path", impl=r"impl Client", props=["C06", "C10", "C12"], keys=True,
   sig_sub=R9_SIG, body_sub=[(r"callback\(RdpEvent::Bitmap\(", "callback.call(RdpEvent::Bitmap(")],
   ensures=STATE_FRAME + [("C10", "appends-only", "appended_only(old(callback).calls(), final(callback).calls())"),
-                         ("C10", "bitmap-events-only", "forall|k: int| old(callback).calls().len() <= k < final(callback).calls().len() ==> #[trigger] final(callback).calls()[k] is Bitmap")])
+                         ("C10", "bitmap-events-only", "forall|k: int| old(callback).calls().len() <= k < final(callback).calls().len() ==> #[trigger] final(callback).calls()[k] is Bitmap")],
+  closures={1: dict(params="", ret="-> (c: Component)", spec="ensures c.mv() == fp_update_view()")},
+  hints=[(r"for fp_message in", 1, "let ghost mut n_rects: int = 0; let ghost ups = fp_messages.mv()->Arr_0;", "before"),
+         (r"fp_messages\.inner\(\)\.iter\(\)", 1, "it1:", "at"),
+         (r"match FastPathUpdate::from_fp", 1, "proof { lemma_keys(); lemma_read_keeps_layout(fp_update_view(), fp_message.fview()); }", "before"),
+         (r"for rectangle in", 1, "let ghost c0 = callback.calls(); let ghost rects = order.message.fields()[2].1->Arr_0;", "before"),
+         (r"cast!\(DataType::Trame, order\.message\[\"rectangles\"\]\)\?", 1, "it2:", "at"),
+         (r"let bitmap = cast!\(DataType::Component, rectangle\)\?;", 1, "proof { lemma_keys(); }\n" + VISIT),
+         (r"\.to_vec\(\)\s*\}\s*\)\);", 1, "proof { n_rects = n_rects + 1; }")],
+  claims=[(r"\.to_vec\(\)\s*\}\s*\)\);", 1, "proof { assert(is_event_of(callback.calls()[c0.len() + it2.index@], bitmap.fields())); }", "after", "C10", "event-built-from-this-rectangle-verbatim")],
+  loops={1: """invariant
+            self.st() == old(self).st() && self.same_config(old(self)),
+            appended_only(old(callback).calls(), callback.calls()),
+            forall|k: int| old(callback).calls().len() <= k < callback.calls().len() ==> #[trigger] callback.calls()[k] is Bitmap,
+            it1.seq().len() == ups.len(), forall|k: int| 0 <= k < it1.seq().len() ==> (#[trigger] it1.seq()[k]).fview() == ups[k],
+            forall|k: int| 0 <= k < ups.len() ==> same_shape(fp_update_view(), #[trigger] ups[k]),
+            // the sink grows by exactly one event per rectangle of a bitmap update that parsed: other updates leave it untouched
+            callback.calls().len() == old(callback).calls().len() + n_rects,""",
+         2: """invariant
+            self.st() == old(self).st() && self.same_config(old(self)),
+            appended_only(old(callback).calls(), callback.calls()),
+            forall|k: int| old(callback).calls().len() <= k < callback.calls().len() ==> #[trigger] callback.calls()[k] is Bitmap,
+            callback.calls().len() == old(callback).calls().len() + n_rects,
+            it2.seq().len() == rects.len(), rects_ok(rects), forall|k: int| 0 <= k < it2.seq().len() ==> (#[trigger] it2.seq()[k]).fview() == rects[k],
+            // C10: after j rectangles the sink holds the events it held before this update followed by exactly j events, the k-th built from the k-th rectangle
+            callback.calls().len() == c0.len() + it2.index@,
+            forall|k: int| 0 <= k < c0.len() ==> #[trigger] callback.calls()[k] == c0[k],
+            forall|j: int| 0 <= j < it2.index@ ==> is_event_of(#[trigger] callback.calls()[c0.len() + j], rects[j]->Comp_0),"""})
 
 G("read", impl=r"impl Client", props=["C12", "C06", "C10"],
   sig_sub=[(r", T>\(", ">("), (r"callback: T", "callback: &mut EventSink"), (r"\s*where T: FnMut\(RdpEvent\)\s*", " ")],
@@ -234,7 +301,8 @@ C("write", props=["C11", "C12"],
            ("C12,C11", "input-gated-by-state", "!old(self).active() ==> r is Err && final(self).wire() == old(self).wire()"),
            # added: the error kinds try_write dispatches on
            ("C12", "gate-error-kind", "!old(self).active() && !(event is Bitmap) ==> " + KIND("r", "InvalidAutomata")),
-           ("C11", "refusal-error-kind", "event is Bitmap ==> " + KIND("r", "UnexpectedType"))],
+           ("C11", "refusal-error-kind", "event is Bitmap ==> " + KIND("r", "UnexpectedType")),
+           ("C11,C12", "no-gate-error-when-active", "old(self).active() ==> !automata_err(r)")],
   pre="proof { lemma_client_specs(&self.global); }",
   hints=[(r"match pointer\.button \{", 1, BITS, "before"),
          (r"if !key\.down \{", 1, BITS, "before")])
